@@ -1,4 +1,4 @@
 SPECIFICATION TraceSpec
-INVARIANT I08
+INVARIANT J08
 POSTCONDITION TraceAccepted
 CHECK_DEADLOCK FALSE
